@@ -11,9 +11,15 @@
 (* DecodeBlocked, as the two actions below.  `LowerBound` switches the     *)
 (* lower bound on the prefix: TRUE is what the property requires, FALSE    *)
 (* what the code did before the fix (negative configuration).              *)
+(* `Remember` = TRUE gives the extractor a memory: the length parsed by a   *)
+(* Decode that reported "incomplete" is kept in the codec value (`pending`) *)
+(* and trusted by the next Decode without looking at the prefix again -     *)
+(* wrong as soon as the codec value serves another stream or DecodeBlocked  *)
+(* has consumed the frame in between (negative configuration; the code      *)
+(* keeps nothing, Remember = FALSE).                                        *)
 EXTENDS Bytes, TLC
 
-CONSTANT LowerBound
+CONSTANTS LowerBound, Remember
 
 VARIABLES
   sent,     \* the complete frames the sender put on the wire, in order (constant per behaviour)
@@ -21,9 +27,10 @@ VARIABLES
   buf,      \* octets arrived and not yet consumed (ConnReader.Size() = Len(buf))
   out,      \* frames returned so far
   fault,    \* how the stream ends: "eof" | "err"
+  pending,  \* the codec value's memory between calls (0: nothing); it outlives a stream (NextStream)
   res       \* result of the last call: [k |-> "none"|"frame"|"incomplete"|"err"|"emptyframe", f |-> octets]
 
-vars == <<sent, stream, buf, out, fault, res>>
+vars == <<sent, stream, buf, out, fault, pending, res>>
 
 Huge == 2147483647
 \* value of a 4-octet big-endian prefix, saturated (TLC integers are 32-bit)
@@ -34,33 +41,35 @@ Res(k, f) == [k |-> k, f |-> f]
 FrameInit(frames, tail, flt) ==
   /\ sent = frames
   /\ stream = Concat(frames) \o tail
-  /\ buf = <<>> /\ out = <<>> /\ fault = flt /\ res = Res("none", <<>>)
+  /\ buf = <<>> /\ out = <<>> /\ fault = flt /\ res = Res("none", <<>>) /\ pending = 0
 
 \* the network delivers k more octets
 Arrive(k) ==
   /\ k \in 1..Len(stream)
   /\ buf' = buf \o Take(stream, k) /\ stream' = Drop(stream, k)
   /\ res' = Res("none", <<>>)
-  /\ UNCHANGED <<sent, out, fault>>
+  /\ UNCHANGED <<sent, out, fault, pending>>
 
 \* non-blocking extraction
 Decode ==
   /\ UNCHANGED <<sent, stream, fault>>
-  /\ IF Len(buf) < 4
-       THEN /\ res' = Res("incomplete", <<>>) /\ UNCHANGED <<buf, out>>
-       ELSE LET n == PLen(Take(buf, 4)) IN
+  /\ IF Len(buf) < 4 /\ ~(Remember /\ pending > 0)
+       THEN /\ res' = Res("incomplete", <<>>) /\ UNCHANGED <<buf, out, pending>>
+       ELSE LET n == IF Remember /\ pending > 0 THEN pending ELSE PLen(Take(buf, 4)) IN
             IF LowerBound /\ n < 4
-              THEN /\ res' = Res("err", <<>>) /\ UNCHANGED <<buf, out>>
+              THEN /\ res' = Res("err", <<>>) /\ UNCHANGED <<buf, out, pending>>
               ELSE IF Len(buf) < n
                 THEN /\ res' = Res("incomplete", <<>>) /\ UNCHANGED <<buf, out>>
+                     /\ pending' = IF Remember THEN n ELSE 0
                 ELSE /\ res' = Res("frame", Take(buf, n))
                      /\ buf' = Drop(buf, n)
                      /\ out' = Append(out, Take(buf, n))
+                     /\ pending' = 0
 
 \* blocking extraction, run to completion over whatever arrives; j = how many of the
 \* octets left over after the frame are already buffered afterwards
 DecodeBlocked(j) ==
-  /\ UNCHANGED <<sent, fault>>
+  /\ UNCHANGED <<sent, fault, pending>>
   /\ LET avail == buf \o stream IN
      IF Len(avail) < 4
        THEN /\ res' = Res("err", <<>>) /\ buf' = <<>> /\ stream' = <<>> /\ UNCHANGED out
@@ -77,6 +86,12 @@ DecodeBlocked(j) ==
                      /\ res' = Res("frame", Take(avail, n))
                      /\ buf' = Take(rest, j) /\ stream' = Drop(rest, j)
                      /\ out' = Append(out, Take(avail, n))
+
+\* the same codec value goes on to serve another connection (the old one ended, possibly with a frame pending)
+NextStream(frames, tail, flt) ==
+  /\ sent' = frames /\ stream' = Concat(frames) \o tail
+  /\ buf' = <<>> /\ out' = <<>> /\ fault' = flt /\ res' = Res("none", <<>>)
+  /\ UNCHANGED pending
 
 ----------------------------------------------------------------------------
 (* What C04 demands                                                        *)
